@@ -492,7 +492,7 @@ def run_session(history: dict, opts: dict | None = None) -> dict:
                     else:
                         fdict = _as_dict(env.functions)
                         ev["outcome"] = do_rewrite(op, fdict)
-                        ev["ref"] = {"kind": "REWRITE", "date": env.box.date, "op": _pure(op)}
+                        ev["ref"] = {"kind": "REWRITE", "date": env.box.date, "op": _pure(op), "repl": [dict(x) for x in env.repl]}
                 else:
                     ev["status"] = "skipped"
             except seams.SimAbort as e:
@@ -707,22 +707,28 @@ def run_references_batch(date: str, refs: list) -> list:
     return out
 
 
+def _apply_replacements(functions, repl):
+    fa = functions
+    for rp in repl:
+        variant = rp["variant"] if not rp["variant"].startswith("copy:") else "copy:" + rp["name"]
+        if isinstance(fa, dict):
+            fa, _ = userlib.apply_replacement(fa, variant, rp["mode"])
+        else:
+            fa, _ = _replace_in_list(fa, {"variant": variant})
+    return fa
+
+
 def _reference_after_setup(ref: dict, params, functions) -> dict:
     if ref["kind"] == "SETUP":
         return outcome_of_setup(params, functions)
     if ref["kind"] == "REWRITE":
-        return do_rewrite(ref["op"], functions)
+        return do_rewrite(ref["op"], _as_dict(_apply_replacements(functions, ref.get("repl", []))))
     for rf in ref["reforms"]:
         try:
             userlib._set(params[rf["group"]], tuple(rf["path"]), rf["new"])
         except Exception as e:  # noqa: BLE001
             return {"kind": "ref_reform_failed", "cls": type(e).__name__, "at": [rf["group"], rf["path"]]}
-    fa = functions
-    for rp in ref["repl"]:
-        if isinstance(fa, dict):
-            fa, _ = userlib.apply_replacement(fa, rp["variant"] if not rp["variant"].startswith("copy:") else "copy:" + rp["name"], rp["mode"])
-        else:
-            fa, _ = _replace_in_list(fa, {"variant": rp["variant"] if not rp["variant"].startswith("copy:") else "copy:" + rp["name"]})
+    fa = _apply_replacements(functions, ref["repl"])
     pop = build_population(ref["pop"])
     data = make_data(pop, ref["form"])
     res = call_compute(data, params, fa, ref["targets"], ref)
